@@ -1115,6 +1115,7 @@ func (v *Verifier) VerifyFunc(cs *ContractSet, spec *FuncSpec) (res *FuncResult)
 				last.Spec = spec
 				last.Group = fmt.Sprintf("%s#ret%d", fname, r.retPaths)
 			}
+			r.frameObligations(st2, fr, spec)
 		}
 		skip := false
 		r.caseTag = ""
@@ -1348,4 +1349,83 @@ func (v *Verifier) implLinks(base string) []*Term {
 	}
 	v.linkC[base] = out
 	return out
+}
+
+// frameObligations: a "modifies" clause is a promise to callers (they keep everything else across the call), so it
+// is an obligation of the function itself: at every return, each heap component that differs from its entry value
+// and is not covered by the clause must agree with the entry heap on every object that existed at entry
+// (objects allocated by the call are the function's own).
+func (r *Run) frameObligations(st *State, fr *Frame, spec *FuncSpec) {
+	if len(spec.ClausesOf("modifies")) == 0 {
+		return // no promise: callers havoc the whole heap
+	}
+	allowed, all := r.specModifies(spec)
+	if all {
+		return
+	}
+	ok := func(name string) bool {
+		if immutableComp(name) {
+			return true
+		}
+		for c := range allowed {
+			if name == c || strings.HasPrefix(name, c+".") || strings.HasPrefix(name, c+"#") {
+				return true
+			}
+		}
+		return false
+	}
+	where := fmt.Sprintf("return in block %d (%s)", fr.retBlock.Index, fr.retBlock.Comment)
+	entry := fr.entry
+	if st.epoch != entry.epoch {
+		r.oblige(st, "frame(*)", spec.Props, where+": a call without a frame havocs the heap", False)
+		return
+	}
+	var names []string
+	for n := range st.heap {
+		names = append(names, n)
+	}
+	sort.Strings(names)
+	top0 := entry.top
+	for _, n := range names {
+		now := st.heap[n]
+		if ok(n) {
+			continue
+		}
+		before, had := entry.heap[n]
+		if !had {
+			// first touched after entry: its entry value is the symbol the entry state would have created
+			before = entry.clone().comp(n, now.Sort)
+		}
+		if now == before || now.String() == before.String() {
+			continue
+		}
+		var goal *Term
+		if now.Sort.IsArray() && strings.HasPrefix(string(now.Sort), "(Array Int ") && !strings.HasPrefix(n, "g:") {
+			rr := Bound(freshName("fr.r"), SInt)
+			elemSort := Sort(strings.TrimSuffix(strings.TrimPrefix(string(now.Sort), "(Array Int "), ")"))
+			goal = Forall([]*Term{rr}, Implies(And(Ge(rr, IntLit(0)), Le(rr, top0)),
+				App("=", SBool, App("select", elemSort, now, rr), App("select", elemSort, before, rr))))
+		} else {
+			goal = App("=", SBool, now, before)
+		}
+		r.oblige(st, "frame("+n+")", spec.Props, where, goal)
+	}
+	// components havocked through a callee's frame and never read here
+	var hvs []string
+	for p := range st.hv {
+		hvs = append(hvs, p)
+	}
+	sort.Strings(hvs)
+	for _, p := range hvs {
+		if e0, had := entry.hv[p]; had && e0 == st.hv[p] {
+			continue
+		}
+		if ok(p) {
+			continue
+		}
+		if _, read := st.heap[p]; read {
+			continue // handled above
+		}
+		r.oblige(st, "frame("+p+")", spec.Props, where+": havocked by a callee", False)
+	}
 }
